@@ -379,6 +379,49 @@ def requester_exit(mode, where, results=(0,)):
         raise Violation('%s:exit:not-ended' % PROP, 'provider not stopped after leaving the association', case)
 
 
+def requester_nested(event, where):
+    """Inside the block of a live association to peer A the caller requests a second association to peer B, which refuses it
+    (or aborts / asks for release during the first exchange).  B's error leaves A's block as well: A is left through an
+    error and must be aborted - it is B that is gone, not A - and the caller sees B's error with B's fields."""
+    from pynetdicom2 import exceptions
+    case = {'kind': 'requester-nested', 'event': list(event), 'where': where}
+    ae = make_client()
+    b_events = [tuple(event)] if event[0] == 'reject' else [tuple(event)]
+    fac = fd.Factory([lambda d: setattr(d, 'responder', peer([])),
+                      lambda d: setattr(d, 'responder', peer(b_events))])
+    raised = None
+    try:
+        with fd.installed(fac):
+            with ae.request_association(dict(REMOTE)) as a:
+                if where == 'between':
+                    exchange(a, 'echo', 0)
+                with ae.request_association(dict(REMOTE, aet='OTHER')) as b:
+                    exchange(b, 'echo', 0)
+                raise _Done()
+    except _Done:
+        raise Violation('%s:nested:no-error' % PROP, 'the second association was to fail with %r, nothing was raised' % (event,), case)
+    except BaseException as exc:    # noqa
+        raised = exc
+    want = {'reject': exceptions.AssociationRejectedError, 'abort': exceptions.AssociationAbortedError,
+            'release': exceptions.AssociationReleasedError}[event[0]]
+    if not isinstance(raised, want):
+        raise Violation('%s:nested:wrong-error:%s' % (PROP, lib_frame(raised)), 'second association: peer did %r, caller saw %r' % (event, raised), case)
+    if event[0] == 'reject' and (raised.result, raised.source, raised.diagnostic) != tuple(event[1:]):
+        raise Violation('%s:nested:fields' % PROP, 'rejection %r surfaced as %r' % (event[1:], (raised.result, raised.source, raised.diagnostic)), case)
+    if event[0] == 'abort' and (raised.source, raised.reason_diag) != tuple(event[1:]):
+        raise Violation('%s:nested:fields' % PROP, 'abort %r surfaced as %r' % (event[1:], (raised.source, raised.reason_diag)), case)
+    dul = fac.instances[0]
+    kinds = [r['spec'].get('t') for r in dul.sent_pdus()][1:]
+    if kinds != [7]:
+        raise Violation('%s:nested:outer-not-aborted' % PROP, 'a live association was left through the error of ANOTHER association '
+                        '(%r): PDUs sent on it afterwards %r, expected exactly one A-ABORT' % (event, kinds), case)
+    if dul.sent_pdus(7)[0]['spec']['source'] != 0:
+        raise Violation('%s:exit:abort-source' % PROP, 'A-ABORT source %d on a user-side error' % dul.sent_pdus(7)[0]['spec']['source'], case)
+    for i, d in enumerate(fac.instances):
+        if not d.killed:
+            raise Violation('%s:nested:not-ended' % PROP, 'provider of association %d not stopped' % (i + 1), case)
+
+
 # ---- acceptor: peer aborts / releases ------------------------------------------------------------------
 def acceptor_peer_event(event, after):
     """The requesting peer sends `after` echo requests and then an A-ABORT(s, r) or an A-RELEASE-RQ."""
@@ -735,6 +778,11 @@ def run(ctx):
                 ctx.case(('exit', mode, results), True, labels=['exit=' + mode, 'contexts-refused'],
                          sample={'exit': mode, 'context results': results})
                 ctx.check(requester_exit, mode, 'between' if results[0] == 0 else 'first', results)
+    for event in (('reject', 1, 1, 1), ('reject', 2, 3, 2), ('reject', 1, 2, 2), ('abort', 0, 0), ('abort', 2, 6), ('release',)):
+        for where in ('first', 'between'):
+            ctx.case(('nested', event, where), True, labels=['exit=error-of-a-nested-association', 'nested-' + event[0]],
+                     sample={'nested association': event, 'where': where})
+            ctx.check(requester_nested, event, where)
     for where in ('first', 'between'):
         ctx.case(('release-ignored', where), True, labels=['release-never-confirmed'], sample={'where': where})
         ctx.check(requester_release_ignored, where)
@@ -782,6 +830,8 @@ def replay(case):
         requester_peer_event(case['position'], case['exchange'], tuple(case['event']))
     elif k == 'release-ignored':
         requester_release_ignored(case['where'])
+    elif k == 'requester-nested':
+        requester_nested(tuple(case['event']), case['where'])
     elif k == 'requester-exit':
         requester_exit(case['mode'], case['where'], tuple(case.get('results', (0,))))
     elif k == 'loopback':
